@@ -127,7 +127,22 @@ func ruleExpansion(w *World, r *Report) {
 			bad = "the coarser vertical axis is not raised with integrate.VerticalZoom"
 		}
 		if bad == "" && appends == 0 {
-			bad = "no spatial ID is emitted in this case (the voxel is lost)"
+			// nothing is appended: the voxel is lost if every reachable return hands back an empty list
+			lost := true
+			for _, ret := range returnsOf(f) {
+				if !reach[ret.Block()] || len(ret.Results) == 0 {
+					continue
+				}
+				v := ret.Results[0]
+				if vals, ok := sliceLiteral(v); ok && len(vals) > 0 {
+					lost = false
+				} else if !isEmptySliceBase(resolve(v)) && !isNilConst(resolve(v)) {
+					lost = false // a list the rule does not trace: no verdict on this clause
+				}
+			}
+			if lost {
+				bad = "no spatial ID is emitted in this case (the voxel is lost)"
+			}
 		}
 		key := fn + " / " + names[rl]
 		if bad != "" {
@@ -804,8 +819,113 @@ func ruleUpperBoundForm(w *World, r *Report, cl map[*ssa.Function]bool) {
 
 // ---------------------------------------------------------------- tile conversion
 
+// rangeSource: v is result #idx of a transform.ConvertAltitudekeyToMinMaxZ call
+// made in f, or of a module helper called in f that hands the results of its
+// own single range call through unchanged.  site is the call in f; conv the
+// range call itself; elemArg the value in f that supplies the tile whose key
+// and key zoom the range call reads (nil if they are not both getters on one
+// object).
+type rangeSrc struct {
+	site, conv *ssa.Call
+	idx        int
+	tile       ssa.Value
+}
+
+func isRangeConv(g *ssa.Function) bool {
+	return funcIs(g, modPath+"/transform", "ConvertAltitudekeyToMinMaxZ")
+}
+
+func tileOfRangeCall(c *ssa.Call) ssa.Value {
+	var obj ssa.Value
+	for i := 0; i < 2; i++ {
+		ac, ok := resolve(c.Call.Args[i]).(*ssa.Call)
+		if !ok || calleeOf(ac) == nil || accessorField(calleeOf(ac)) == nil || len(ac.Call.Args) != 1 {
+			return nil
+		}
+		o := resolve(ac.Call.Args[0])
+		if obj != nil && o != obj {
+			return nil
+		}
+		obj = o
+	}
+	return obj
+}
+
+func rangeSource(w *World, v ssa.Value) *rangeSrc {
+	ex, ok := resolve(v).(*ssa.Extract)
+	if !ok {
+		return nil
+	}
+	c, ok := ex.Tuple.(*ssa.Call)
+	if !ok {
+		return nil
+	}
+	g := calleeOf(c)
+	if g == nil {
+		return nil
+	}
+	if isRangeConv(g) {
+		return &rangeSrc{site: c, conv: c, idx: ex.Index, tile: tileOfRangeCall(c)}
+	}
+	if !w.InModule(g) || g.Blocks == nil {
+		return nil
+	}
+	inner := callsTo(g, isRangeConv)
+	if len(inner) != 1 {
+		return nil
+	}
+	e := scFor(w)
+	idx := -1
+	for _, ret := range returnsOf(g) {
+		if e.isFailureReturn(g, ret) || ex.Index >= len(ret.Results) {
+			continue
+		}
+		ie, ok := resolve(ret.Results[ex.Index]).(*ssa.Extract)
+		if !ok || ie.Tuple != ssa.Value(inner[0]) {
+			if classifyReturn(g, ret) != retSuccess {
+				continue // placeholder next to a propagated error
+			}
+			return nil
+		}
+		if idx >= 0 && idx != ie.Index {
+			return nil
+		}
+		idx = ie.Index
+	}
+	if idx < 0 {
+		return nil
+	}
+	out := &rangeSrc{site: c, conv: inner[0], idx: idx}
+	if t := tileOfRangeCall(inner[0]); t != nil {
+		if pi := paramIndex(g, t); pi >= 0 && pi < len(c.Call.Args) {
+			out.tile = resolve(c.Call.Args[pi])
+		}
+	}
+	return out
+}
+
+// mentions: the expression tree of v (arithmetic only) contains x.
+func mentions(v, x ssa.Value, d int) bool {
+	v = resolve(v)
+	if v == x {
+		return true
+	}
+	if d > 4 {
+		return false
+	}
+	switch y := v.(type) {
+	case *ssa.BinOp:
+		return mentions(y.X, x, d+1) || mentions(y.Y, x, d+1)
+	case *ssa.UnOp:
+		return mentions(y.X, x, d+1)
+	case *ssa.Extract:
+		return y.Tuple == x
+	}
+	return false
+}
+
 func ruleTileLoop(w *World, r *Report) {
-	r.Rule("RANGE-LOOP", "for each tile the emitted vertical indices are exactly zMin..zMax inclusive, where zMin and zMax are the two results of the transform.ConvertAltitudekeyToMinMaxZ call made for that same tile in that iteration (value identity, not a cached or recomputed value), and the loop variable is what SetZ receives")
+	r.Rule("RANGE-LOOP", "for each tile the emitted vertical indices are exactly zMin..zMax inclusive, where zMin and zMax are the two results of the transform.ConvertAltitudekeyToMinMaxZ call made for that same tile in that iteration (value identity, directly or through a helper that hands the range through unchanged; not a cached or recomputed value), and the loop variable is what SetZ receives")
 	fn := "transform.ConvertTileXYZsToExtendedSpatialIDs"
 	f := lookupByName(w, fn)
 	if f == nil {
@@ -814,91 +934,116 @@ func ruleTileLoop(w *World, r *Report) {
 	}
 	pos := w.Pos(f.Pos())
 	outer := loopOverParam(f, 0)
-	calls := callsTo(f, func(g *ssa.Function) bool { return funcIs(g, modPath+"/transform", "ConvertAltitudekeyToMinMaxZ") })
-	if outer == nil || len(calls) != 1 || !outer.blocks()[calls[0].Block()] {
-		r.add("RANGE-LOOP", fn+" / range call", pos, Violated, fmt.Sprintf("expected exactly one ConvertAltitudekeyToMinMaxZ call inside the loop over the tiles, found %d", len(calls)))
-		return
-	}
-	c := calls[0]
-	// every iteration makes the call (no skip) unless it fails
-	if ok, _ := everyIterationPasses(outer, func(x *ssa.Call) bool { return x == c }, nil); !ok {
-		r.add("RANGE-LOOP", fn+" / range call", w.Pos(c.Pos()), Violated, "an iteration can skip the range conversion of its tile (a tile is dropped or a stale range is used)")
-	} else {
-		r.add("RANGE-LOOP", fn+" / range call", w.Pos(c.Pos()), Discharged, "every tile's range is converted in its own iteration")
-	}
-	// argument 0 and 1 are getters on the loop element
-	okArgs := true
-	for i := 0; i < 2; i++ {
-		ac, ok := resolve(c.Call.Args[i]).(*ssa.Call)
-		if !ok || calleeOf(ac) == nil || accessorField(calleeOf(ac)) == nil || !outer.isElem(resolve(ac.Call.Args[0])) {
-			okArgs = false
-		}
-	}
-	if okArgs {
-		r.add("RANGE-LOOP", fn+" / tile fields", w.Pos(c.Pos()), Discharged, "the range call reads the key and key zoom of this iteration's tile")
-	} else {
-		r.add("RANGE-LOOP", fn+" / tile fields", w.Pos(c.Pos()), Violated, "the range call does not read both fields from this iteration's tile")
-	}
-	zmin, zmax := extractOf(c, 0), extractOf(c, 1)
-	// z loop: phi with edge zmin, compared <= zmax (or < zmax+1), step 1, passed to SetZ
-	var zphi *ssa.Phi
-	instrs(f, func(in ssa.Instruction) {
-		p, ok := in.(*ssa.Phi)
-		if !ok || zmin == nil {
-			return
-		}
-		for i, e := range p.Edges {
-			if resolve(e) == ssa.Value(zmin) && len(p.Edges) == 2 {
-				if inc, ok := p.Edges[1-i].(*ssa.BinOp); ok && inc.Op == token.ADD && inc.X == ssa.Value(p) {
-					if k, ok := constInt(inc.Y); ok && k == 1 {
-						zphi = p
-					}
-				}
-			}
-		}
-	})
-	if zphi == nil || zmax == nil {
-		r.add("RANGE-LOOP", fn+" / bounds", pos, Violated, "no loop variable starting at the returned minimum with step 1 (the emitted range is not the converted range of this tile)")
-		return
-	}
-	_, _, ifi := ifSuccs(zphi.Block())
-	okBound := false
-	if ifi != nil {
-		if cmp, ok := ifi.Cond.(*ssa.BinOp); ok && cmp.X == ssa.Value(zphi) {
-			if cmp.Op == token.LEQ && resolve(cmp.Y) == ssa.Value(zmax) {
-				okBound = true
-			}
-			if cmp.Op == token.LSS {
-				if a, ok := resolve(cmp.Y).(*ssa.BinOp); ok && a.Op == token.ADD && resolve(a.X) == ssa.Value(zmax) {
-					if k, ok := constInt(a.Y); ok && k == 1 {
-						okBound = true
-					}
-				}
-			}
-		}
-	}
-	if okBound {
-		r.add("RANGE-LOOP", fn+" / bounds", pos, Discharged, "z runs from the returned minimum to the returned maximum inclusive")
-	} else {
-		r.add("RANGE-LOOP", fn+" / bounds", pos, Violated, "the loop over z does not end at the returned maximum inclusive")
-	}
-	// SetZ(z)
-	okSet := false
 	ke := kindsFor(w)
+	// the loop variable that SetZ receives
+	var zphi *ssa.Phi
+	var zinit ssa.Value
+	nSet := 0
 	instrs(f, func(in ssa.Instruction) {
 		sc, ok := in.(*ssa.Call)
 		if !ok || calleeOf(sc) == nil || len(sc.Call.Args) != 2 {
 			return
 		}
-		if role := ke.paramRole(calleeOf(sc), 1); role != nil && role.Scalar == ks(kF) && resolve(sc.Call.Args[1]) == ssa.Value(zphi) {
-			okSet = true
+		role := ke.paramRole(calleeOf(sc), 1)
+		if role == nil || role.Scalar != ks(kF) {
+			return
+		}
+		nSet++
+		p, ok := resolve(sc.Call.Args[1]).(*ssa.Phi)
+		if !ok || len(p.Edges) != 2 {
+			return
+		}
+		for i := range p.Edges {
+			if inc, ok := p.Edges[1-i].(*ssa.BinOp); ok && inc.Op == token.ADD && inc.X == ssa.Value(p) {
+				if k, ok := constInt(inc.Y); ok && k == 1 {
+					zphi, zinit = p, p.Edges[i]
+				}
+			}
 		}
 	})
-	if okSet {
-		r.add("RANGE-LOOP", fn+" / emitted index", pos, Discharged, "the vertical index stored is the loop variable")
-	} else {
-		r.add("RANGE-LOOP", fn+" / emitted index", pos, Violated, "the stored vertical index is not the loop variable z")
+	if outer == nil || zphi == nil {
+		if nSet > 0 && outer != nil {
+			r.add("RANGE-LOOP", fn+" / emitted index", pos, Violated, "the stored vertical index is not a loop variable stepping by one through the converted range")
+			return
+		}
+		r.add("RANGE-LOOP", fn+" / shape", pos, Undecided, "no loop over the tiles with an inner loop whose variable is stored as the vertical index was recognised")
+		return
 	}
+	r.add("RANGE-LOOP", fn+" / emitted index", pos, Discharged, "the vertical index stored is the loop variable")
+	lo := rangeSource(w, zinit)
+	if lo == nil {
+		// positive evidence only when the start is an expression over a range result
+		bad := false
+		for _, c := range callsTo(f, func(g *ssa.Function) bool { return true }) {
+			if rs := rangeSource(w, extractOfAny(c, 0)); rs != nil && mentions(zinit, c, 0) {
+				bad = true
+			}
+		}
+		if bad {
+			r.add("RANGE-LOOP", fn+" / bounds", pos, Violated, "the loop over z does not start at the returned minimum itself ("+describeValue(zinit)+")")
+		} else {
+			r.add("RANGE-LOOP", fn+" / bounds", pos, Undecided, "the start of the loop over z could not be traced to a range conversion ("+describeValue(zinit)+")")
+		}
+		return
+	}
+	c := lo.site
+	if !outer.blocks()[c.Block()] {
+		r.add("RANGE-LOOP", fn+" / range call", w.Pos(c.Pos()), Violated, "the range is not converted inside the loop over the tiles (a cached or stale range is used)")
+		return
+	}
+	if ok, _ := everyIterationPasses(outer, func(x *ssa.Call) bool { return x == c }, nil); !ok {
+		r.add("RANGE-LOOP", fn+" / range call", w.Pos(c.Pos()), Violated, "an iteration can skip the range conversion of its tile (a tile is dropped or a stale range is used)")
+	} else {
+		r.add("RANGE-LOOP", fn+" / range call", w.Pos(c.Pos()), Discharged, "every tile's range is converted in its own iteration")
+	}
+	switch {
+	case lo.tile == nil:
+		r.add("RANGE-LOOP", fn+" / tile fields", w.Pos(c.Pos()), Violated, "the range call does not read both the key and the key zoom from one tile")
+	case !outer.isElem(lo.tile):
+		r.add("RANGE-LOOP", fn+" / tile fields", w.Pos(c.Pos()), Violated, "the range call does not read both fields from this iteration's tile")
+	default:
+		r.add("RANGE-LOOP", fn+" / tile fields", w.Pos(c.Pos()), Discharged, "the range call reads the key and key zoom of this iteration's tile")
+	}
+	if lo.idx != 0 {
+		r.add("RANGE-LOOP", fn+" / bounds", pos, Violated, "the loop over z starts at the returned maximum, not the minimum")
+		return
+	}
+	_, _, ifi := ifSuccs(zphi.Block())
+	okBound, known := false, false
+	if ifi != nil {
+		if cmp, ok := ifi.Cond.(*ssa.BinOp); ok && cmp.X == ssa.Value(zphi) {
+			bound := cmp.Y
+			excl := false
+			if cmp.Op == token.LSS {
+				if a, ok := resolve(cmp.Y).(*ssa.BinOp); ok && a.Op == token.ADD {
+					if k, ok := constInt(a.Y); ok && k == 1 {
+						bound, excl = a.X, true
+					}
+				}
+			}
+			if hi := rangeSource(w, bound); hi != nil {
+				known = true
+				okBound = hi.site == c && hi.idx == 1 && (cmp.Op == token.LEQ || excl)
+			} else if mentions(bound, c, 0) {
+				known = true
+			}
+		}
+	}
+	switch {
+	case okBound:
+		r.add("RANGE-LOOP", fn+" / bounds", pos, Discharged, "z runs from the returned minimum to the returned maximum inclusive")
+	case known:
+		r.add("RANGE-LOOP", fn+" / bounds", pos, Violated, "the loop over z does not end at the returned maximum inclusive")
+	default:
+		r.add("RANGE-LOOP", fn+" / bounds", pos, Undecided, "the end of the loop over z could not be traced to the range conversion")
+	}
+}
+
+func extractOfAny(c *ssa.Call, i int) ssa.Value {
+	if e := extractOf(c, i); e != nil {
+		return e
+	}
+	return c
 }
 
 func ruleTileCompose(w *World, r *Report) {
